@@ -4,7 +4,7 @@ cd /verif
 group() {
   case $1 in
     C01) echo C01,C04,C06 ;; C02) echo C02,C05,C04 ;; C03) echo C03,C01 ;; C04) echo C04,C01 ;; C05) echo C05,C02 ;; C11) echo C11,C10,C01 ;;
-    C06) echo C06,C08,C07 ;; C07) echo C07,C06,C01 ;; C08) echo C08,C06 ;; C09) echo C09,C06,C01 ;; C10) echo C10,C11,C01 ;;
+    C06) echo C06,C08,C07 ;; C07) echo C07,C06,C01 ;; C08) echo C08,C06 ;; C09) echo C09,C15,C01 ;; C10) echo C10,C11,C01 ;;
     C12) echo C12,C13 ;; C13) echo C13,C12 ;; C14) echo C14 ;;
     C15) echo C15,C16,C17 ;; C16) echo C16,C15 ;; C17) echo C17,C15 ;;
     C18) echo C18,C19 ;; C19) echo C19,C18,C20 ;; C20) echo C20,C19 ;; C21) echo C21,C19 ;;
